@@ -33,6 +33,7 @@ import (
 
 	"github.com/markusmobius/go-domdistiller/internal/pagination/info"
 	"github.com/markusmobius/go-domdistiller/internal/pagination/pattern"
+	"github.com/markusmobius/go-domdistiller/vtrace"
 )
 
 type PageCandidate struct {
@@ -194,12 +195,18 @@ func newDetectionStateFromMonotonicNumbers(monotonicNumbers []*info.PageInfo, is
 		candidate := pageCandidates[strPattern]
 		if strPattern == acceptedPagePattern || len(candidate.links) > MaxPagingDocs ||
 			!candidate.pagePattern.IsValidFor(parsedDocURL) {
+			if vtrace.On {
+				verifCand(strPattern, nil)
+			}
 			continue
 		}
 
 		pageParamInfo := info.ListLinkInfo(candidate.links).
 			Evaluate(candidate.pagePattern, monotonicNumbers, firstPageURL)
 		if pageParamInfo == nil {
+			if vtrace.On {
+				verifCand(strPattern, nil)
+			}
 			continue
 		}
 
@@ -216,6 +223,9 @@ func newDetectionStateFromMonotonicNumbers(monotonicNumbers []*info.PageInfo, is
 			}
 		}
 
+		if vtrace.On {
+			verifCand(strPattern, pageParamInfo)
+		}
 		state.compareAndUpdate(&DetectionState{
 			bestPageParamInfo: pageParamInfo,
 		})
